@@ -6,7 +6,7 @@ from hypothesis import strategies as st
 from pydrex import core
 
 from vlib import gen
-from vlib.harness import sut
+from vlib.harness import Violation, sut
 
 
 def rate_case(max_n=24, explicit_max=8, families=None, allow_trace=True):
@@ -71,7 +71,11 @@ def call(x, **over):
         volume_fraction=float(x["phi"]),
     )
     a.update(over)
+    keep = {k: a[k].copy() for k in ("orientations", "fractions", "strain_rate", "velocity_gradient")}
     Adot, fdot = sut(core.derivatives, **a)
+    for k, v in keep.items():
+        if not np.array_equal(a[k], v):
+            raise Violation(f"core.derivatives modified its input array `{k}`")
     return np.asarray(Adot), np.asarray(fdot)
 
 
